@@ -239,6 +239,19 @@ Qed.
 Lemma pong_ok_model tok : C18_pong_ok (Some tok) [s_PONG ++ s_sp_colon ++ tok] = true.
 Proof. unfold C18_pong_ok. cbn [filter]. rewrite is_pong_line_pong. cbn [list_beq]. now rewrite beq_refl. Qed.
 
+(* a sequence of PINGs, of any length: one PONG each, in order *)
+Lemma busy_ok_model toks : Forall (fun t => forallb trailing_byte t = true) toks ->
+  C18_busy_ok toks (flat_map (fun t => fst (pong_of_raw (wire (ping_trailing None t)))) toks) = true.
+Proof.
+  intros H. unfold C18_busy_ok.
+  assert (E : filter is_pong_line (flat_map (fun t => fst (pong_of_raw (wire (ping_trailing None t)))) toks)
+              = map (fun t => s_PONG ++ s_sp_colon ++ t) toks).
+  { induction H as [|t toks Ht _ IH]; [reflexivity|].
+    cbn [flat_map map]. rewrite (pong_trailing None t eq_refl Ht). cbn [fst app filter].
+    rewrite is_pong_line_pong. now rewrite IH. }
+  rewrite E. apply list_beq_refl'.
+Qed.
+
 (* ================= PING from the client ================= *)
 Lemma digits_aux_digits fuel : forall n acc,
   Forall (fun c => is_digit_b c = true) acc -> Forall (fun c => is_digit_b c = true) (digits_aux fuel n acc).
